@@ -20,6 +20,20 @@ def _worker_init(repo, own_group=False):
             os.setpgrp()          # solver subprocesses share the worker's group and are killed with it
         except OSError:
             pass
+        import threading
+        parent = os.getppid()
+
+        def _watch():
+            # if the check itself is killed from outside, the worker and its solvers must not linger
+            import signal
+            while True:
+                time.sleep(1.0)
+                if os.getppid() != parent:
+                    try:
+                        os.killpg(0, signal.SIGKILL)
+                    except Exception:
+                        os._exit(1)
+        threading.Thread(target=_watch, daemon=True).start()
     os.environ.setdefault("JAX_PLATFORMS", "cpu")
     os.environ.setdefault("OMP_NUM_THREADS", "1")
     os.environ.setdefault("XLA_FLAGS", "--xla_cpu_multi_thread_eigen=false intra_op_parallelism_threads=1")
